@@ -92,7 +92,7 @@ fn aggregate(infos: Vec<ColInfo>) -> BoxedStrategy<(Expr, Vec<String>)> {
     .boxed()
 }
 
-fn query_strategy(t: &LogicalTable) -> BoxedStrategy<GenQuery> {
+pub fn query_strategy(t: &LogicalTable) -> BoxedStrategy<GenQuery> {
     let infos = qgen::col_infos(t);
     (
         prop_oneof![3 => vec(group_key(infos.clone()), 0..=0), 5 => vec(group_key(infos.clone()), 1..=1), 2 => vec(group_key(infos.clone()), 2..=3)],
@@ -194,7 +194,7 @@ pub fn kf_shape(gq: &GenQuery, t: &LogicalTable, layout: &Layout) -> Vec<&'stati
 }
 
 /// Multiset comparison of group rows.
-fn compare(q: &Query, exp: &eval::Expected, got: &[Vec<Cell>], count_null_ok: bool) -> Result<(), String> {
+pub fn compare(q: &Query, exp: &eval::Expected, got: &[Vec<Cell>], count_null_ok: bool) -> Result<(), String> {
     let ncols = q.select.len();
     let agg_cols: Vec<bool> = q.select.iter().map(|i| i.expr.has_agg()).collect();
     let is_count_col: Vec<bool> = q.select.iter().map(|i| matches!(&i.expr, Expr::Agg(AggKind::Count, e) if !matches!(**e, Expr::Int(_)))).collect();
